@@ -9,6 +9,7 @@ CONSTANTS
   Wallet <- W12
   AllowRestart = FALSE
   AllowRelayOff = FALSE
+  RemovalRace = FALSE
   DesigRace = FALSE
   KeepFirstCopy = FALSE
   WithdrawOnRemoval = FALSE
